@@ -20,13 +20,13 @@ ENGINES = [
 MODEL = "Trusted: the harness's reference model (sorted vector / BTreeMap) and the enumeration bounds printed in the evidence; third-party codec crates are trusted to round-trip."
 
 chk("C01", "model_checking", "bounded-exhaustive enumeration of entry-shape sequences x layout grid x codecs on the real Writer/Reader vs the inserted vector",
-    "Every file of a finite population (all entry-shape sequences up to n over {empty,1 B,600 B} keys x {0,300,1100 B} values x the 252-layout grid; x every codec; deep, dense, exact-fit and framing-boundary families) is written and read back by the real code (forward and backward scan from fresh cursors, len and codec through every accessor, two writer construction paths) and compared with the inserted vector. Exhaustive within the stated bounds, which reach every block-cut / index-cut / offset-slot composition the writer's structure allows.",
+    "Every file of a finite population (all entry-shape sequences up to n over {empty,1 B,600 B} keys x {0,300,1100 B} values x the 252-layout grid; x every codec; deep, dense, exact-fit and framing-boundary families) is written and read back by the real code (forward and backward scan from fresh cursors, len and codec through every accessor, the default constructors compared with each other, a borrowed buffering sink, sinks accepting short and interrupted writes) and compared with the inserted vector. Exhaustive within the stated bounds, which reach every block-cut / index-cut / offset-slot composition the writer's structure allows.",
     MODEL, "DESIGN.md 4 C01")
 chk("C02", "model_checking", "bounded-exhaustive enumeration of files x every probe equivalence class x {GE,LE,EQ} x {fresh,reset,clone} vs BTreeMap-style model",
     "For every file of the population and every probe class (each stored key, each gap, before-first, after-last, plus prefix/extension variants) each seek kind is executed on a fresh, a reset and a cloned real cursor and compared with the model's ceiling/floor/match.",
     MODEL, "DESIGN.md 4 C02")
-chk("C03", "model_checking", "explicit-state BFS to closure over real cursor states (hook fingerprint dedup) vs sorted-vector model",
-    "Every reachable (model position, cursor fingerprint) state of the real ReaderCursor on each listed file x every operation of the alphabet is executed on a clone and compared with the reference model; the search runs to closure, so the verdict covers operation histories of unbounded length over the alphabet and files listed in the evidence.",
+chk("C03", "model_checking", "explicit-state BFS to closure over real cursor states (hook fingerprint dedup), plus two bounded-depth enumerations of all histories without deduplication (on clones; on one never-cloned cursor), vs sorted-vector model",
+    "Every reachable (model position, cursor fingerprint) state of the real ReaderCursor on each listed file x every operation of the alphabet is executed on a clone and compared with the reference model; the search runs to closure, so the verdict covers operation histories of unbounded length over the alphabet and files listed in the evidence. Two further engines enumerate every history up to a fixed length with no deduplication (so the verdict does not rest on the fingerprint alone): one on clones (length <= 6/7), one on a single cursor object that is never cloned (length 5/6, larger alphabet).",
     "Trusted: the harness's sorted-vector model; soundness of state deduplication rests on the fingerprint hook exposing every field the cursor's behaviour depends on (argued in DESIGN.md C03); files and probe alphabet are the stated finite lists.",
     "DESIGN.md 4 C03")
 chk("C04", "model_checking", "bounded-exhaustive enumeration of files x all bound pairs (3 kinds x class representatives)^2 x 2 directions vs filtered model",
@@ -41,36 +41,36 @@ chk("C06", "model_checking", "bounded-exhaustive enumeration of k <= 3/4 sources
 chk("C07", "model_checking", "bounded-exhaustive enumeration of insert sequences x spill-relevant settings x 3 extraction paths on the real Sorter vs ordered multimap",
     "All insert sequences up to length n over 3 keys x 4 value sizes (empty to larger than the buffer) x the full product of budget, reallocation, initial capacity, max chunks, stable/unstable (made reachable at byte scale by the hook) x streaming / writing / external merge of chunk cursors; pass-through settings crossed with all shorter sequences; real-constant and parallel-sort groups. Rayon's internal schedules are sampled (pool sizes), not enumerated, and are not part of the exhaustive claim.",
     MODEL + " The scaling hook only overrides two constants per thread; a hook-free group binds it to the shipped thresholds.", "DESIGN.md 4 C07")
-chk("C08", "model_checking", "explicit-state BFS to closure over the real Sorter's bookkeeping state (hook) under a size alphabet, invariants on every transition",
+chk("C08", "model_checking", "explicit-state BFS to closure over the real Sorter's bookkeeping state (hook) under a size alphabet, invariants on every transition; plus all insert sequences up to a fixed length without deduplication",
     "For every configuration in the grid the set of reachable bookkeeping states under entry sizes <= T/4 is closed; on every transition the volume inserted since the last spill, the number of live chunks (instrumented creator, Drop counting) and chunk provenance are checked. Closure means the bound holds for insert sequences of unbounded length over the alphabet.",
-    "Trusted: dedup soundness (spill decision reads only the fingerprinted numbers; argued in DESIGN.md C08); hook-free runs at the real 10 MiB minimum tie the scaled constants to the shipped ones.", "DESIGN.md 4 C08")
+    "Trusted: dedup soundness (spill decision reads only the fingerprinted numbers; argued in DESIGN.md C08; a second engine without deduplication backs it for the smallest budgets); the effective budget is read from the sorter (no minimum or default is assumed); hook-free runs at the shipped minimum tie the scaled constants to the shipped ones.", "DESIGN.md 4 C08")
 chk("C09", "model_checking", "bounded-exhaustive enumeration of files decoded by an independent decoder and cross-read/written with frozen grenad 0.4.7",
     "Every file of the C01 population is decoded byte-for-byte by a decoder that shares no code with grenad (length prefixes, varints, offset tables, tree from the trailer's root, trailer), read by grenad 0.4.7, and the 0.4.7 writer's bytes are read by the current reader and the independent decoder.",
     "Trusted: the independent decoder in vlib::fmt (written from the format statement), grenad 0.4.7 from the cargo cache, codec crates.", "DESIGN.md 4 C09")
 chk("C10", "model_checking", "bounded-exhaustive enumeration of V1-re-trailed files x all query batteries vs the V2 twin",
-    "Every index_levels = 0 file of the population is re-trailed into V1 by the harness's own encoder; version, count, codec and every scan/seek/range/prefix query must equal the V2 twin result-for-result.",
+    "Every index_levels = 0 file of the population is re-trailed into V1 by the harness's own encoder; version, count, codec and every scan/seek/range/prefix query must equal the V2 twin result-for-result; every cursor history up to a fixed length is run on a few multi-block V1 files (a history that fails alike on the V2 twin is not C10's).",
     MODEL + " V1 files are produced by the harness (no V1 writer exists in the tree).", "DESIGN.md 4 C10")
 chk("C11", "model_checking", "deviation-bounded exhaustive exploration of per-call I/O answer schedules (short transfers, Interrupted) on the real code vs the all-default run",
-    "Every schedule with <= d non-default answers (1 byte, half, len-1, Interrupted) at any write/read call of each scenario (writer, reader/iterators, merger, sorter over scheduled chunk storage) is executed and every public result and sink byte stream compared with the reference run; plus uniform adversarial schedules. d = 1 quick, d = 2 thorough.",
-    "Trusted: the scheduled in-memory file (vlib::sio); determinism is asserted (reference run twice, prefix divergence is a hard error).", "DESIGN.md 4 C11")
+    "Every schedule with <= d non-default answers (1 byte, half, len-1, Interrupted) at any write/read call of each scenario (writer, reader/iterators, merger, sorter over scheduled chunk storage) is executed and every public result and sink byte stream compared with the reference run; plus uniform adversarial schedules. d depends on the number of decision points of the scenario (quick: 2 up to 80 points, else 1; thorough: 3 / 2 / 1).",
+    "Trusted: the scheduled in-memory file (vlib::sio); results and bytes of two reference runs must agree; a run whose recorded prefix does not replay exactly (call pattern depending on state outside the scenario) is judged but nothing is derived from it, and is counted.", "DESIGN.md 4 C11")
 chk("C12", "fault_enumeration", "exhaustive single-fault enumeration over every component call (write/flush/read/seek/create/merge) x error kinds on the real code",
     "For every scenario and every k up to the number of component calls of the fault-free run, the k-th call fails with each error kind; the public call in progress must return the matching Err, earlier calls must be unaffected, no panic, no success. Thorough repeats this under 1-byte and interrupted transfer schedules.",
     "Trusted: the scheduled components; behaviour after an Err is unspecified and not explored.", "DESIGN.md 4 C12")
 chk("C13", "model_checking", "exhaustive enumeration of crash points (all truncations), single-byte trailer corruptions and all short byte strings vs an independent trailer predicate",
-    "Every prefix of each finished file (the crash states of an append-only writer), every single-byte corruption of the trailer, all 16.8 M byte strings of length <= 3 and a magic x codec x filler product for lengths 4..=40 are opened under catch_unwind and compared with the independent acceptance predicate.",
+    "Every prefix of each finished file (the crash states of an append-only writer), every single-byte corruption of the trailer, all 16.8 M byte strings of length <= 3 and a magic x codec x filler product for lengths 4..=40 are opened under catch_unwind — through a Cursor, a Cursor standing at its end, a source with a file's seek semantics, and short-reading sources — and compared with the independent acceptance predicate; a default-feature build is checked in a sub-process.",
     "Trusted: vlib::fmt::parse_trailer (20 lines, written from the statement).", "DESIGN.md 4 C13")
-chk("C14", "model_checking", "full-domain enumeration of all 2^32 lengths through the length codec (hook re-export) vs own LEB128, plus boundary-length entries through the API",
-    "All 2^32 values are encoded and decoded in three contexts and compared with the harness's LEB128; entries with key/value lengths around 2^7, 2^14, 2^21 (2^28 thorough) go through Writer, Reader and the independent decoder.",
-    "Trusted: vlib::fmt LEB128. API-level 2^32-1 byte entries are not run.", "DESIGN.md 4 C14")
+chk("C14", "model_checking", "full-domain enumeration of all 2^32 lengths through the length codec (hook re-export): round trip and consumed length, plus boundary-length entries through the API",
+    "All 2^32 values are encoded (1..=5 bytes) and decoded in three contexts (exact, followed by FF.., followed by 00..) and must round-trip consuming exactly the encoded bytes; entries with key/value lengths around 2^7, 2^14, 2^21 (one 2^28 value; 2^28 +-1 thorough) go through Writer and Reader (alone, and sharing a block with neighbours reached by seeks) and through a Sorter.",
+    "Trusted: the harness's comparison of returned bytes. API-level 2^32-1 byte entries are not run (call-site defects between 2^28+2 and 2^32-1 bytes are out of reach).", "DESIGN.md 4 C14")
 chk("C15", "model_checking", "bounded-exhaustive enumeration of files x all block sizes; size rule checked on every block recovered by the independent decoder",
-    "For every file of the C01 population (all block-size settings incl. the clamped ones) every data block and every index block >= 2 levels below the root is checked: without its last entry it is smaller than B, and all but the last of its level reach B.",
+    "For every file of the C01 population (all block-size settings incl. the clamped ones) every data block and every index block >= 2 levels below the root is checked: without its last entry it is smaller than B, and all but the last of its level reach B or would have with their next entry; when no block size is configured B is inferred from the file (one value must explain every cut); the sorter's own chunk files obey the same rule.",
     "Trusted: the independent decoder's layout.", "DESIGN.md 4 C15")
 chk("C16", "model_checking", "explicit-state BFS to closure over real cursor states with a counting source: block loads per operation; growth family over file sizes",
-    "For every reachable cursor state x every operation the number of block loads of that one call is counted on an instrumented source and bounded by 2*(levels+2); a growth family (n up to 60000) shows the maximum is independent of n; open reads only the trailer.",
+    "For every reachable cursor state x every operation the number of block loads of that one call is counted on an instrumented source and bounded by 2*(levels+2); re-reading a block right away is one load; a growth family (n up to 5000 quick / 60000 thorough) shows the maximum is independent of n and that no operation reads half of the file; open reads nothing below the trailer (every codec); into_cursor is charged to the first operation.",
     "Trusted: the counting source; dedup soundness as in C03.", "DESIGN.md 4 C16")
 chk("C17", "model_checking", "explicit-state BFS over sorter bookkeeping states with a state-relative size menu under a checking allocator, plus enumerated scenarios executed under Miri",
-    "Every reachable bookkeeping state (below a stated growth cap) x every size class (empty, 1 byte, exact fit, one more, one doubling, several doublings) is executed natively under a guard-band / layout-checking / poisoning allocator with overflow checks and compared with the model; size sequences and read-path scenarios are executed under Miri. The UB monitors judge each execution; the enumeration makes it exhaustive within the bounds.",
+    "Every reachable bookkeeping state (below a stated growth cap) x every size class (empty, 1 byte, exact fit, one more, one doubling, several doublings) is executed natively under a guard-band / layout-checking / poisoning allocator with overflow checks and compared with the model (a leak must repeat when the run is repeated); runs with the shipped constants (buffers up to 10 MiB) and absurd budgets in child processes (a refusal by panic or allocation-error abort is accepted, an overflow or an impossible layout is not); size sequences and read-path scenarios are executed under Miri. The UB monitors judge each execution; the enumeration makes it exhaustive within the bounds.",
     "Trusted: Miri (Stacked Borrows, leak check) and the checking allocator as monitors; zstd (FFI) is not run under Miri; the claim is per enumerated execution.", "DESIGN.md 4 C17")
 chk("C18", "model_checking", "bounded-exhaustive enumeration of all insert sequences (sorted, duplicate, descending) x layouts under catch_unwind; per-block order from an independent block walk",
-    "All insert sequences up to length n over 6 keys x 2 value sizes x interval x index levels: either the writer panics or every emitted block, data and index alike, is strictly ascending; ascending sequences must not panic. All three outcomes occur and are counted.",
+    "All insert sequences up to length n over 6 keys x 2 value sizes x interval x index levels: either the writer panics or every emitted block, data and index alike, is strictly ascending; ascending sequences must not panic; every accepted file is also streamed through a Merger into a second writer; sequences with a 1.3 MB value. grenad is built without debug assertions, so a check demoted to debug_assert! counts as absent. All three outcomes occur and are counted.",
     "Trusted: the independent block walk.", "DESIGN.md 4 C18")
